@@ -428,6 +428,9 @@ def cli_cases(rng, quick):
         if rng.random() < 0.3:
             fl += ["--gap-extend", rng.choice(["-0.5", "-1", "-2.5"])]
         yield Case("cli_libf", [cligen.esc(cligen.fasta(up)), "ref.fa=" + cligen.esc(cligen.fasta(refs)), "phasent"] + fl, True, "cli-phasent")
+        # the amino-acid mode: goalign phase (no --nt-output there)
+        fl2 = [x for i, x in enumerate(fl) if x not in ("--nt-output", "codon.fa")]
+        yield Case("cli_libf", [cligen.esc(cligen.fasta(up)), "ref.fa=" + cligen.esc(cligen.fasta(refs)), "phase"] + fl2, True, "cli-phase")
 
 
 def accepts(c):
